@@ -730,15 +730,34 @@ func (cs *ContractSet) loadFile(path string) error {
 			}
 			nm, _ := splitWord(r2)
 			key := pkg + "." + nm
+			var xparams, xresults []string
 			if kw == "extern" {
 				// extend extern pkg.Type.Method — adds (view-tagged) clauses to a contract declared elsewhere under that absolute key
 				// (an extern of another file, or a func contract of another package)
 				key = nm
+				// optional parameter/result names, `extend extern pkg.T.M(recv, a) (r)`: used only while the contract has none
+				// of its own (an interface method whose extern block is elsewhere or absent; a function with a body takes
+				// the names from its declaration)
+				if op := strings.Index(r2, "("); op >= 0 {
+					if cl := strings.Index(r2, ")"); cl > op {
+						key = strings.TrimSpace(r2[:op])
+						xparams = splitList(r2[op+1 : cl])
+						if restr := strings.TrimSpace(r2[cl+1:]); strings.HasPrefix(restr, "(") {
+							xresults = splitList(strings.Trim(restr, "()"))
+						}
+					}
+				}
 			}
 			fc := cs.Funcs[key]
 			if fc == nil {
 				fc = &FuncContract{Key: key, Pkg: pkg, Loops: map[int]*LoopSpec{}, Opts: map[string]string{}, File: path, Line: l.no, Placeholder: true}
 				cs.Funcs[key] = fc
+			}
+			if len(fc.Params) == 0 {
+				fc.Params = xparams
+			}
+			if len(fc.Results) == 0 {
+				fc.Results = xresults
 			}
 			curF = fc
 		case "func", "extern", "lemmafn":
@@ -1228,10 +1247,7 @@ func (f *FuncContract) hasView(v string) bool {
 // it will use, or a flag (pure / modifies *) that is not tied to a view. A contract that consists of clauses for OTHER
 // views only is not applicable: the callee is then inlined (always sound) instead of being replaced by an empty contract.
 func (f *FuncContract) applicable(v string) bool {
-	use := ""
-	if v != "" && f.hasView(v) {
-		use = v
-	}
+	use := f.selectView(v)
 	if len(clausesFor(f.Requires, use)) > 0 || len(clausesFor(f.Ensures, use)) > 0 || len(f.modifiesFor(use)) > 0 {
 		return true
 	}
@@ -1270,4 +1286,15 @@ func (f *FuncContract) modifiesFor(v string) []Expr {
 		}
 	}
 	return out
+}
+
+// selectView: the first of the unit's views (space-separated list) for which this contract has tagged clauses; "" = the
+// untagged (body-checked) contract.
+func (f *FuncContract) selectView(unitViews string) string {
+	for _, tv := range strings.Fields(unitViews) {
+		if f.hasView(tv) {
+			return tv
+		}
+	}
+	return ""
 }
